@@ -50,6 +50,16 @@ def pool(ctx):
         eq.append({"k": "ins", "mn": "MOV", "ops": [{"t": "m", "w": 0, "aw": 0, "b": -1, "x": -1, "sc": 1, "d": 0, "hd": 0, "lab": "LEDS"}, {"t": "r", "w": 8, "n": 0}]})
         eq.append({"k": "data", "mn": "DW", "items": [{"t": "e", "e": {"o": "*", "a": {"o": "id", "nm": "CYLS"}, "b": {"o": "n", "v": 512}}}]})
     ps.append(eq)
+    # an EQU that is an alias of a label (not reducible to a constant when it is defined), used twice; and a program that defines
+    # the same names as plain constants: whatever is remembered about a name must die with the assembly
+    lab = lambda n: {"t": "l", "nm": n, "add": 0}
+    ps.append([{"k": "org", "v": 0x7c00}, {"k": "equ", "nm": "TBL", "e": {"o": "id", "nm": "table"}}, {"k": "equ", "nm": "CYLS", "e": {"o": "id", "nm": "table"}},
+               {"k": "ins", "mn": "MOV", "ops": [{"t": "r", "w": 16, "n": 3}, lab("TBL")]}, {"k": "ins", "mn": "MOV", "ops": [{"t": "r", "w": 16, "n": 6}, lab("TBL")]},
+               {"k": "ins", "mn": "MOV", "ops": [{"t": "r", "w": 16, "n": 7}, lab("CYLS")]}, {"k": "ins", "mn": "HLT", "ops": []},
+               {"k": "label", "nm": "table"}, {"k": "data", "mn": "DB", "items": [{"t": "e", "e": {"o": "n", "v": v}} for v in (1, 2, 3)]}])
+    ps.append([{"k": "org", "v": 0x7c00}, {"k": "equ", "nm": "TBL", "e": {"o": "n", "v": 5}}, {"k": "equ", "nm": "table", "e": {"o": "n", "v": 7}},
+               {"k": "ins", "mn": "MOV", "ops": [{"t": "r", "w": 8, "n": 0}, lab("TBL")]}, {"k": "ins", "mn": "MOV", "ops": [{"t": "r", "w": 8, "n": 1}, lab("table")]},
+               {"k": "data", "mn": "DW", "items": [{"t": "e", "e": {"o": "*", "a": {"o": "id", "nm": "TBL"}, "b": {"o": "id", "nm": "table"}}}]}])
     ps.append([{"k": "org", "v": 0x7c00}] + both)
     ps.append([{"k": "org", "v": 0x7c00}, {"k": "bits", "v": 32}] + both)
     return ps
